@@ -55,6 +55,8 @@ def systematic():
     out.append({"origin": "96h-from-the-confirmed-login", "steps": [L("alice", "p1")] + down + [H, L("alice", "p1"), H, L("alice", "p1"), L("alice", "p1")] + up + [L("alice", "p1")]})
     out.append({"origin": "offline-logins-do-not-extend", "steps": [L("alice", "p1"), H] + down + [L("alice", "p1"), L("alice", "p1"), H, L("alice", "p1")] + up +
                 [L("alice", "p1"), H] + down + [L("alice", "p1"), H, L("alice", "p1")]})
+    out.append({"origin": "confirmed-login-renews-the-96h", "steps": [L("alice", "p1"), H, L("alice", "p1"), H] + down + [L("alice", "p1"), H, L("alice", "p1")] + up +
+                [L("alice", "p1")]})
     SY, DO, DR = {"op": "sync"}, {"op": "dboutage"}, {"op": "dbrecover"}
     out.append({"origin": "replica-serves-during-store-outage", "steps": [L("alice", "p1"), SY] + down + [DO, L("alice", "p1"), L("alice", "p2"), DR] + up + [L("alice", "p1")]})
     out.append({"origin": "evicted-hash-leaves-replica", "steps": [L("alice", "p1"), SY, {"op": "change", "user": "alice", "pw": "p2"}, L("alice", "p1"), SY] + down +
@@ -79,6 +81,26 @@ def run(tier, seed, work, replay):
             raise E.Inconclusive("negative control %s found no violation" % neg)
     n, depth = (25, 25) if tier == "quick" else (300, 40)
     cases = systematic() + simulate(work, n, depth, seed)
+    # below the specification's grain: the user types the name in another spelling (the password is still judged for the
+    # normalised user: the directory holds a DIFFERENT account under the typed spelling, password p3), and the password
+    # arrives with a certificate request (HTTP Basic) instead of the login form
+    import copy
+    k = 0
+    extra = []
+    for c in cases:
+        c2 = copy.deepcopy(c)
+        touched = False
+        for st in c2["steps"]:
+            if st.get("op") == "login":
+                k += 1
+                st["via"] = "basic" if k % 2 else "form"
+                st["typed"] = "capitalised" if (k // 2) % 2 else "plain"
+                touched = touched or st["via"] == "basic" or st["typed"] != "plain"
+        if touched and (tier == "thorough" or not c["origin"].startswith("simulate") or k % 3 == 0):
+            c2["origin"] = c["origin"] + "+spelling/basic"
+            extra.append(c2)
+    cases = cases + extra
+    cov["behaviours_with_typed_spelling_or_basic_auth"] = len(extra)
     cp = work.path("cases.ndjson")
     E.write_ndjson(cp, cases)
     known = E.load_known()
